@@ -113,6 +113,8 @@ def scenarios(ctx):
     # publish() called again from inside the success callback of an earlier publish (re-entrant use of the API)
     out.append(Std('pub-reenter', profile='pub', mode='sync', init=CONNECTED, windows=(1, 2), pub_qos=(0, 1, 2), reenter=('pub',),
                    budgets=dict(pub=3, ack=3, setwin=1)))
+    out.append(Std('pub-wrap', profile='pub', mode='sync', init=CONNECTED + (('setwin', 0, 2),), pub_qos=(0, 1, 2),
+                   budgets=dict(pub=4, ack=1, setid=1)))
     out.append(Std('pubsub-persist-w3', profile='pubsub', mode='sync', init=CONNECTED_P + (('setwin', 0, 3),),
                    connects=[(False, 0, 4)], reconnects=[(False, 0, 4)],
                    budgets=dict(pub=4 if q else 5, ack=2, lose=1, rebuild=1, connect=1, connack=1, setwin=0 if q else 1), windows=(1, 2)))
